@@ -13,7 +13,8 @@ import (
 )
 
 // Renumbering schemes: how another producer might have numbered the relationships of the main part.
-// The styles relationship keeps rId1 in all of them (foreign numbering of that one is C02/C04's subject).
+// The styles relationship keeps its id in all of them (foreign numbering of that one is C02/C04's subject; a package
+// without a styles part, where its usual id may be a picture's, is nostyles.go).
 const (
 	schemeShift   = 0 // rIdN -> rId(N+k): numeric, holes below the first id
 	schemeSpread  = 1 // rIdN -> rId(2N): numeric, holes between the ids
@@ -92,8 +93,14 @@ func renumber(b []byte, scheme, k int) ([]byte, int, error) {
 			mapping[id] = fmt.Sprintf("R%x_%d", 0xa0+i*7, k)
 		}
 	}
-	// the mapping must stay injective and must not touch rId1
-	seen := map[string]bool{"rId1": true}
+	// the mapping must stay injective and must not touch the id of the styles relationship (rId1 in a package the library
+	// made; another id once the library has added it to a package that came without one, see nostyles.go)
+	seen := map[string]bool{}
+	for _, r := range rels {
+		if r.Type == relStyles {
+			seen[r.ID] = true
+		}
+	}
 	for _, id := range ids {
 		n := id
 		if v, ok := mapping[id]; ok {
